@@ -13,11 +13,24 @@ struct blk_hdr {
 };
 static long alloc_count, fail_at = -1, live_blocks;
 static bool injected_now, alloc_misuse;
+#if defined(__has_feature)
+#if __has_feature(address_sanitizer)
+void __sanitizer_print_stack_trace(void);
+#define VH_PRINT_STACK() __sanitizer_print_stack_trace()
+#endif
+#endif
+#ifndef VH_PRINT_STACK
+#define VH_PRINT_STACK() ((void)0)
+#endif
 static bool should_fail(void)
 {
 	alloc_count++;
 	if (fail_at >= 0 && alloc_count == fail_at) {
 		injected_now = true;
+		/* the call site of the failed allocation identifies a finding (not where the process later dies) */
+		fprintf(stderr, "INJECTED-AT: allocation #%ld\n", alloc_count);
+		VH_PRINT_STACK();
+		fprintf(stderr, "INJECTED-END\n");
 		return true;
 	}
 	return false;
